@@ -116,6 +116,29 @@ fn check_pins(db: &Database) -> Vec<String> {
     bad
 }
 
+/// Reader liveness, tracked by the harness itself (NOT through the engine's pin counts, which a defect may get wrong):
+/// when a read-only transaction is pending at `txn.pinned(t<id>,ro=true,..)` it has just pinned the latest version (no other
+/// task ran in between), so the row-sets of table <id> in the latest snapshot are the ones it will read. Until the statement
+/// of that actor is over, their directories must exist.
+fn reader_table(label: &str) -> Option<u32> {
+    let g = gate_name(label);
+    let rest = g.strip_prefix("txn.pinned(t")?;
+    if !rest.contains("ro=true") {
+        return None;
+    }
+    rest.split(',').next()?.parse().ok()
+}
+
+fn latest_dirs(db: &Database, table: u32) -> Vec<std::path::PathBuf> {
+    match db.verif_secondary_storage() {
+        Some(st) => {
+            let root = st.verif_path();
+            st.verif_latest_rowsets().into_iter().filter(|(t, _)| *t == table).map(|(t, r)| root.join(format!("{t}_{r}"))).collect()
+        }
+        None => vec![],
+    }
+}
+
 pub fn run_one(w: &Value, prefix: &[String]) -> Exec {
     let seed = w.get("_seed").and_then(|v| v.as_u64()).unwrap_or(0);
     let (w2, p2) = (w.clone(), prefix.to_vec());
@@ -176,6 +199,7 @@ fn run_one_inner(w: &Value, prefix: &[String]) -> Exec {
         let mut last_actor: Option<String> = None;
         let mut inv: Vec<Value> = vec![];
         let mut deadlock = false;
+        let mut readers: BTreeMap<String, Vec<std::path::PathBuf>> = BTreeMap::new();
         loop {
             quiesce().await;
             if want_pins {
@@ -184,6 +208,34 @@ fn run_one_inner(w: &Value, prefix: &[String]) -> Exec {
                 }
             }
             let pending = pending_labels();
+            if want_pins {
+                // a reader that has just pinned: remember what it will read
+                for (_, l) in &pending {
+                    if let Some(t) = reader_table(l) {
+                        readers.entry(actor_of(l)).or_insert_with(|| latest_dirs(&db, t));
+                    }
+                }
+                // a reader whose statement is over (its actor is finished or starts its next statement) needs nothing any more
+                let over: Vec<String> = readers
+                    .keys()
+                    .filter(|a| {
+                        handles.iter().any(|(n, h)| n == *a && h.is_finished())
+                            || pending.iter().any(|(_, l)| &actor_of(l) == *a && gate_name(l) == "run.begin")
+                    })
+                    .cloned()
+                    .collect();
+                for a in over {
+                    readers.remove(&a);
+                }
+                for (a, dirs) in &readers {
+                    for d in dirs {
+                        if !d.is_dir() {
+                            inv.push(json!({"step": step, "what": format!("reader {a} is still running but the directory {} of a row-set of its snapshot is gone", d.file_name().unwrap().to_string_lossy())}));
+                        }
+                    }
+                }
+            }
+            let pending = pending;
             // transparent gates: released at once, never a choice (the workload says which gate names matter)
             if let Some((t, _)) = pending.iter().find(|p| transparent.iter().any(|x| gate_name(&p.1).starts_with(x.as_str()))) {
                 release(*t);
